@@ -278,40 +278,58 @@ func TestVerifC20Race(t *testing.T) {
 		defer runtime.GOMAXPROCS(runtime.GOMAXPROCS(4))
 	}
 	// ---- race rounds on fresh collectors (state Starting) ---------------------------------------------
-	rounds := vBudget(24000, 8)
-	budget := 20 * time.Second // wall-clock cap of this part: a slow machine runs fewer rounds, never fails for it
+	rounds := vBudget(25000, 6) // per worker
+	budget := 15 * time.Second // wall-clock cap of this part: a slow machine runs fewer rounds, never fails for it
 	if vTier() != "quick" {
 		budget = 90 * time.Second
 	}
-	r := vNewRand(0xC20AA)
 	t0 := time.Now()
+	var mu sync.Mutex
 	seen := map[int]bool{}
-	done := 0
-	for ; done < rounds && time.Since(t0) < budget; done++ {
-		w := v20NewWorld()
-		col := v20NewCollector(w)
-		k := 2 + r.Intn(7)
-		n, msg := v20Storm(col, k)
-		closed := v20ChanClosed(col)
-		term := v20RaceTerm(k, col.GetState(), closed)
-		if !seen[k] {
-			seen[k] = true
-			out.Case(true, term)
-		}
-		if n > 0 {
-			out.Oracle(v20StormKind(msg), term, fmt.Sprintf("concurrent calls=%d panics=%d state=Starting round=%d: %s", k, n, done, msg))
-			break
-		}
-		if !closed {
-			out.Oracle("shutdown-request-lost", term, fmt.Sprintf("concurrent calls=%d state=Starting round=%d: channel not closed", k, done))
-			break
-		}
-		// sequential repetition afterwards is a no-op and does not panic either
-		if n2, msg2 := v20Storm(col, 1); n2 > 0 {
-			out.Oracle("shutdown-panics", term, "repeated call after a storm: "+msg2)
-			break
-		}
+	var total atomic.Int64
+	var stop atomic.Bool
+	var rwg sync.WaitGroup
+	for wk := 0; wk < 4; wk++ { // several racing groups at once: more cores busy, more preemption
+		rwg.Add(1)
+		go func(wk int) {
+			defer rwg.Done()
+			r := vNewRand(0xC20AA + uint64(wk))
+			for done := 0; done < rounds && time.Since(t0) < budget && !stop.Load(); done++ {
+				total.Add(1)
+				w := v20NewWorld()
+				col := v20NewCollector(w)
+				k := 2 + r.Intn(7)
+				n, msg := v20Storm(col, k)
+				closed := v20ChanClosed(col)
+				term := v20RaceTerm(k, col.GetState(), closed)
+				mu.Lock()
+				first := !seen[k]
+				seen[k] = true
+				mu.Unlock()
+				if first {
+					out.Case(true, term)
+				}
+				if n > 0 {
+					out.Oracle(v20StormKind(msg), term, fmt.Sprintf("concurrent calls=%d panics=%d state=Starting round=%d: %s", k, n, done, msg))
+					stop.Store(true)
+					return
+				}
+				if !closed {
+					out.Oracle("shutdown-request-lost", term, fmt.Sprintf("concurrent calls=%d state=Starting round=%d: channel not closed", k, done))
+					stop.Store(true)
+					return
+				}
+				// sequential repetition afterwards is a no-op and does not panic either
+				if n2, msg2 := v20Storm(col, 1); n2 > 0 {
+					out.Oracle(v20StormKind(msg2), term, "repeated call after a storm: "+msg2)
+					stop.Store(true)
+					return
+				}
+			}
+		}(wk)
 	}
+	rwg.Wait()
+	done := int(total.Load())
 	out.Stat("race_rounds", done)
 	// ---- free-running collectors -------------------------------------------------------------------------
 	nfree := vBudget(160, 10)
